@@ -138,6 +138,14 @@ type Engine struct {
 	addrTaken map[*types.Var]bool   // struct fields whose address is taken (&p.f)
 	Guarded   map[string]string     // "pkg.Type.field" -> name of the mutex field protecting it
 	GuardedProps map[string][]string
+	fvals     []*funcValue          // function values of the repository (dyncall.go)
+	fvalsDone bool
+	modMemo   map[*types.Func]*modMemoEntry
+	dynBusy   map[*ast.FuncLit]bool
+	dynSigSeen map[string]bool
+	instIdx   map[*types.Func][][]types.Type
+	pendingTargs []types.Type
+	chaIface  *types.Interface
 	Callers   []*CallersSpec        // `callers` clauses (coverage.go)
 	Owned     []*OwnedSpec          // ownership of struct fields by a set of functions (coverage.go)
 	Monitors  map[string]*Contract // "pkg.Type.mutexfield" -> invariant (Requires) and rely/guarantee (Ensures)
